@@ -228,9 +228,10 @@ CLAIMS: dict[str, tuple[str, str, str, str]] = {
         "codespan_keeps (line endings to spaces, one space stripped from each side iff both present and not all spaces), "
         "hr_markup (marker repeated exactly as often as it occurs; line = markers and blanks); mini_verbatim (Props/C08b: "
         "in the modelled sub-parser every code_block/fence content is exactly the getLines cuts of the lines of its map, "
-        "fence markup+info is the opening line's text, hr markup the scanned run; getLinesB_spec, cutOf_spec). MISSING: "
-        "html_block content, heading/list/quote markup, list start/info, and code/fence inside containers (rules not "
-        "modelled): oracle reconstructs every content line from its source line and counts markers. Tie: every real "
+        "fence markup+info is the opening line's text, hr markup the scanned run; getLinesB_spec, cutOf_spec); l_verbatim (Props/C08c: "
+        "with quotes and lists nested to any depth, every content line of a code_block/fence is, after at most pad spaces, a suffix of "
+        "the source line its map points to; fence markup+info is the tail of its opening line; hr markup is read off the tail of its "
+        "line). MISSING: html_block content, heading/list/quote markup, list start/info, the exact removed width inside containers: oracle reconstructs every content line from its source line and counts markers. Tie: every real "
         "getLines call, code span and hr traced and compared with the model.",
         NOTE,
         "Lean 4 proof (loop invariant of the indent-stripping scan; string lemmas) + per-call traces + reconstruction oracle",
